@@ -211,10 +211,15 @@ CHECKS = {'C09': {'category': 'proof',
                  'propext/Classical.choice/Quot.sound.'},
  'C17': {'category': 'translation_validation',
          'note': 'sequential growth only; concurrent resizes are judged by C14/C16.',
-         'technique': 'single-threaded differential runs of CuckooSet/StripedSet/SplitListSet growth against a std::set reference after every operation, with degenerate hash families; Lean theorems '
-                      "for the split-order (C27) and Feldman (C28) parts of 'growth moves nothing it should not'",
-         'text': 'SplitList growth never moves an element and Feldman expansion moves one element one level: these parts rest on the C27/C28 theorems. Striped and cuckoo rehash have no Lean model '
-                 'yet: decided exactly (single-threaded) on generated sequences. The CuckooSet::resize drop is a recorded known finding with a kept witness.'},
+         'technique': 'Lean 4: sequential model of CuckooSet (insert / erase / relocate / resize incl. the losing branch) tied by layout-exact differential runs after every operation, with theorems '
+                      '(resize exact up to the dropped keys; preservation under the decidable and necessary room hypothesis; machine-checked negation of the full statement = the known finding); StripedSet rehash '
+                      "theorem for every hash function; single-threaded differential runs of CuckooSet/StripedSet/SplitListSet growth against a std::set reference with degenerate hash families; C27 / C28 "
+                      "theorems for the split-order and Feldman parts of 'growth moves nothing it should not'",
+         'text': 'SplitList growth never moves an element and Feldman expansion moves one element one level: these parts rest on the C27/C28 theorems. CuckooSet: Algo/Cuckoo is a sequential model of the '
+                 'code as it is; C17_cuckoo_resize_exact, C17_cuckoo_resize_preserves_partial, C17_cuckoo_resize_room_iff, C17_cuckoo_resize_lost_iff, C17_cuckoo_resize_can_drop, C17_cuckoo_witness_run, '
+                 'C17_cuckoo_erase, C17_cuckoo_insert_exact / _partial; the model is compared with the real container token for token (tools/cuckoo_tie.py). StripedSet: C17_striped_rehash_preserves (sequential, every '
+                 'hash) plus the concurrent machine of C16. The CuckooSet::resize drop is a recorded known finding with a kept witness, reproduced by the model; a lost key that the harness cannot classify is '
+                 'attributed to that finding only when the model of the unchanged code reproduces the whole run.'},
  'C20': {'category': 'translation_validation',
          'note': 'variants are those instantiated by the harness clients, not the full trait matrix of test/unit.',
          'technique': 'single-threaded operation sequences on every variant of every client judged against the strict Lean reference specifications by the verified checker; spec laws of update() as '
@@ -250,9 +255,11 @@ CHECKS = {'C09': {'category': 'proof',
                  "listWf/skipWf/ellenWf/avlWf/splitWf (Base/Snapshot) and returns the abstract content, which must equal the container's own traversal, agree with size()/empty() where a counter "
                  'exists, and be a possible final content of the history (one contains-observation per key is appended and the verified checker judges the whole). C18_list, C18_skiplist, C18_ellen, '
                  "C18_avl, C18_avl_strict, C18_splitlist state what well-formedness implies; both libraries' check_consistency() are transcribed and Bronson's is proved vacuous for balance "
-                 '(libCheck_eq_localOrder). AVL balance is judged on structural heights (shapeBalanced_iff).',
+                 '(libCheck_eq_localOrder). AVL balance is judged on structural heights (shapeBalanced_iff). Props/C18Reach proves reachable => well-formed for every reachable state of the '
+                 'MichaelList, LazyList and SplitListSet machines and for level 0 of the SkipListSet machine (C18_michael_reachable_wf, C18_lazy_reachable_wf / _quiescent, C18_splitlist_reachable_wf, '
+                 'C18_skiplist_reachable_wf_partial); for Michael and Lazy the real final structure of every replayed case is compared with the rendering of the final machine state.',
          'note': 'SC interleavings only (threads serialised by a baton at every atomic operation); memory orders not modelled; explored schedules only for the history/oracle/trace ties; Lean kernel '
-                 "+ propext/Classical.choice/Quot.sound. 'Every reachable quiescent state is well-formed' is decided on explored schedules, not proved. Known finding: Bronson can be left imbalanced "
+                 "+ propext/Classical.choice/Quot.sound. 'Every reachable quiescent state is well-formed' is a theorem only for the machines named in the text (skip list: level 0 only); for EllenBinTree, Bronson, IterableList and the upper skip-list levels it is decided on explored schedules. Known finding: Bronson can be left imbalanced "
                  'by 2 at quiescence.'},
  'C19': {'category': 'translation_validation',
          'technique': 'Lean 4: IterableList machine with iterator and erase_at (all schedules: guard never holds a disposed element, complete and exactly once, erase_at exact; key order proved false '
